@@ -14,9 +14,12 @@ It reads, from /repo's current working tree,
   src/primitives/common/scanline.rs  `Scanline::{new, new_empty, is_empty}`, `Iterator::next`
   src/geometry/mod.rs                `PointExt::length_squared`
   src/primitives/common/styled_scanline.rs   `StyledScanline::{new, stroke_left, stroke_right, fill}`
-  src/primitives/{circle,ellipse}/styled.rs  `StyledScanlines::{new, next}` (the stroke / fill split of every row; the generic
-                                     `draw_styled` / `StyledPixelsIterator<C>` are NOT translated: listed in `untranslated`
-                                     as far as they are non-generic impls, see the pinned list)
+  src/primitives/{circle,ellipse}/styled.rs  `StyledScanlines::{new, next}` (the stroke / fill split of every row),
+                                     `StyledDrawable::draw_styled`, `StyledDimensions::styled_bounding_box`
+                                     (`StyledPixelsIterator` is NOT translated: pinned in `untranslated`)
+  src/primitives/common/{scanline,styled_scanline}.rs  also `Scanline::draw`, `StyledScanline::draw_stroke(_and_fill)`
+  src/primitives/primitive_style.rs  `PrimitiveStyle::{outside_stroke_width, inside_stroke_width, effective_stroke_color}`,
+                                     `stroke_area` / `fill_area` instantiated at `Circle` and `Ellipse`
 and writes EG/Generated/CurveSrc.lean: one Lean `def` per Rust function, mirroring the Rust text arm for arm, plus
 one `structure` per Rust `struct` declared in these files (`Circle`, `Ellipse`, `EllipseContains`, `Scanline`,
 `CircleScanlines`, `CirclePoints`, ...: the field lists are regenerated too).
@@ -45,6 +48,16 @@ What the translator does beyond re-spelling (each is the DEFINITION of the Rust 
                              body (the names are replaced; a shadowing closure parameter / pattern is refused)
   * closures are only accepted as arguments of `Range::find` (on a `.clone()`), `Option::map`, `Option::or_else`;
     `Range::find_map` (on a place, which it advances); they may read but not assign captured variables.
+GENERIC ITEMS. Items generic over the colour `C: PixelColor` are read with `C` := the opaque concrete type `Color`
+(`degenericize`: the parameter list after `impl`, `<C>` after the generic type names, `where` clauses are dropped).
+A function generic over the TARGET (`target: &mut D`, returning `Result<(), D::Error>`) is translated to THE LIST OF TARGET
+CALLS IT MAKES on a target that never fails (`List EG.Call`, the hand models' vocabulary; error propagation is C04's
+topic): `target.fill_solid(&r, c)` is the one call, `x.m(target, ..)` the callee's calls, `e?; rest` is `e ++ rest`,
+`Ok(())` is `[]`, `for x in it { body }` concatenates `body` over the items collected from the regenerated
+`Iterator::next` on explicit `fuel` (`for_calls`). A function generic over a shape `P: OffsetOutline` (`stroke_area`,
+`fill_area`) is instantiated per call at the argument's type (`PrimitiveStyle_stroke_area_Circle`).
+`w.saturating_as()` without a target type is read as `u32 -> i32` (the only cast known); a use at another type fails the
+translator's own type check.
 All semantics live in the hand-written prelude EG/Model/CurveSrcPrelude.lean (`pow`, `Range::find`, `Option::map`, the
 `u64` arithmetic and casts) and in tr_rect's prelude. Anything unknown raises; `generate` then writes a
 CurveSrc.lean that only contains `def translationFailed`, so exactly the theorems of Props/C05/Generated*.lean and
@@ -69,7 +82,12 @@ FILES = {
     "styled_scanline": "src/primitives/common/styled_scanline.rs",
     "circle_styled": "src/primitives/circle/styled.rs",
     "ellipse_styled": "src/primitives/ellipse/styled.rs",
+    "prim_style": "src/primitives/primitive_style.rs",
 }
+# files with items generic over the colour `C` (and functions generic over the target `D` / `T` or the shape `P`)
+# the types of these files that are generic over the colour: `Name<C>` is written `Name`
+COLOUR_GENERIC_TYPES = {"PrimitiveStyle", "PrimitiveStyleBuilder", "StyledPixelsIterator"}
+DEGENERIC = {"prim_style", "circle_styled", "ellipse_styled", "scanline", "styled_scanline"}
 # module-qualified names: identifier -> name used in the generated file, per source file
 RENAMES = {
     "circle": {"Points": "CirclePoints"},
@@ -85,9 +103,12 @@ RENAMES = {
 MODULE_PREFIXES = {"circle"}
 
 GENERATED_STRUCTS = ["Scanline", "Circle", "CircleScanlines", "CirclePoints", "EllipseContains", "Ellipse",
-                     "EllipseScanlines", "EllipsePoints", "StyledScanline", "CircleStyledScanlines", "EllipseStyledScanlines"]
+                     "EllipseScanlines", "EllipsePoints", "StyledScanline", "CircleStyledScanlines", "EllipseStyledScanlines",
+                     "PrimitiveStyle"]
+GENERATED_ENUMS = ["StrokeAlignment", "StrokeStyle"]
 INVENTORY_TYPES = ["Circle", "CirclePoints", "CircleScanlines", "CircleStyledScanlines", "Ellipse", "EllipseContains",
-                   "EllipsePoints", "EllipseScanlines", "EllipseStyledScanlines", "Scanline", "StyledScanline"]
+                   "EllipsePoints", "EllipseScanlines", "EllipseStyledScanlines", "Scanline", "StyledScanline", "PrimitiveStyle",
+                   "CircleStyledPixelsIterator", "EllipseStyledPixelsIterator"]
 
 ROOTS_CIRCLE = [
     (None, None, "diameter_to_threshold"),
@@ -115,13 +136,21 @@ ROOTS_STYLED = [
     ("CircleStyledScanlines", None, "new"), ("CircleStyledScanlines", "Iterator", "next"),
     ("EllipseStyledScanlines", None, "new"), ("EllipseStyledScanlines", "Iterator", "next"),
 ]
-ROOTS = ROOTS_CIRCLE + ROOTS_ELLIPSE + ROOTS_STYLED
+ROOTS_DRAW = [
+    ("PrimitiveStyle", None, "outside_stroke_width"), ("PrimitiveStyle", None, "inside_stroke_width"),
+    ("PrimitiveStyle", None, "effective_stroke_color"),
+    ("Scanline", None, "draw"), ("StyledScanline", None, "draw_stroke"), ("StyledScanline", None, "draw_stroke_and_fill"),
+    ("Circle", "StyledDrawable<PrimitiveStyle>", "draw_styled"), ("Ellipse", "StyledDrawable<PrimitiveStyle>", "draw_styled"),
+    ("Circle", "StyledDimensions<PrimitiveStyle>", "styled_bounding_box"),
+    ("Ellipse", "StyledDimensions<PrimitiveStyle>", "styled_bounding_box"),
+]
+ROOTS = ROOTS_CIRCLE + ROOTS_ELLIPSE + ROOTS_STYLED + ROOTS_DRAW
 
 RANGE_I32 = ("Range", ("i32",))
 LEAN_INT_TYPES = {"i32": "Int", "u32": "Nat", "u64": "Nat"}
 
 # prelude names of this part (a local of the same name gets a trailing `_`)
-CURVE_PRELUDE_NAMES = {"i32_pow", "u32_pow", "range_i32_clone", "range_i32_find", "range_i32_find_map", "option_map", "option_unwrap_or_else", "u32_as_u64", "i32_as_u64",
+CURVE_PRELUDE_NAMES = {"i32_pow", "u32_pow", "range_i32_clone", "range_i32_find", "range_i32_find_map", "option_map", "option_unwrap_or_else", "option_filter", "enum_eq", "iter_collect", "for_calls", "Target_fill_solid", "u32_as_u64", "i32_as_u64",
                        "u64_add", "u64_sub", "u64_mul", "u64_div", "u64_eq", "u64_ne", "u64_lt", "u64_le", "u64_gt", "u64_ge",
                        "CurveSrc"}
 
@@ -169,6 +198,84 @@ class CurveBodyParser(tr_rect.BodyParser):
                 continue
             return e
 
+    def parse_block_body(self):
+        """copy of tr_rect.BodyParser.parse_block_body (it is one loop) with `for PAT in EXPR { .. }` added (node `for`)"""
+        c = self.c
+        stmts, tail = [], None
+        while not c.eof():
+            if tail is not None:
+                self.fail("expression in the middle of a block without `;`")
+            if c.at(";"):
+                c.next()
+                continue
+            if c.at("let"):
+                t = c.next()
+                mut = False
+                if c.at("mut"):
+                    c.next()
+                    mut = True
+                pat = self.parse_pattern()
+                ty = None
+                if c.at(":"):
+                    c.next()
+                    ty = tr_rect.parse_type(c)
+                c.expect("=")
+                e = self.parse_expr()
+                if c.at("else"):
+                    self.fail("let-else not supported")
+                c.expect(";")
+                stmts.append(("let", t.line, pat, ty, e, mut))
+                continue
+            if c.at("for"):
+                t = c.next()
+                pat = self.parse_pattern()
+                c.expect("in")
+                it = self.parse_expr(nostruct=True)
+                body = self.parse_braced_block()
+                stmts.append(("expr", t.line, ("for", t.line, pat, it, body)))
+                continue
+            if c.peek().kind == "id" and c.peek().text in ("fn", "struct", "enum", "impl", "use", "const", "static", "loop", "unsafe"):
+                self.fail(f"`{c.peek().text}` inside a body is not supported")
+            e = self.parse_expr(stmt=True)
+            if c.at("=") or (c.peek() and c.peek().kind == "p" and c.peek().text in ("+=", "-=", "*=", "/=", "%=")):
+                op = c.next()
+                rhs = self.parse_expr()
+                c.expect(";")
+                stmts.append(("assign", op.line, op.text, e, rhs))
+            elif c.at(";"):
+                c.next()
+                stmts.append(("expr", e[1], e))
+            elif c.eof():
+                tail = e
+            elif e[0] in ("if", "match", "block", "while"):
+                stmts.append(("expr", e[1], e))     # block-like expression statement needs no `;`
+            else:
+                self.fail(f"expected `;` or end of block after expression, found `{c.peek().text}`")
+        return stmts, tail
+
+    def parse_closure(self):
+        """tr_rect's parse_closure, with `_` accepted as a parameter"""
+        c = self.c
+        t = c.next()
+        if t.text == "move":
+            t = c.next()
+        params = []
+        if t.text == "|":
+            while not c.at("|"):
+                p = self.parse_pattern1()
+                if p[0] == "pwild":
+                    p = ("pbind", p[1], "_")
+                if p[0] != "pbind":
+                    self.fail("closure parameter must be a plain name")
+                if c.at(":"):
+                    self.fail("closure parameter type annotations not supported")
+                params.append(p[2])
+                if c.at(","):
+                    c.next()
+            c.next()
+        body = self.parse_expr()
+        return ("closure", t.line, params, body)
+
     def parse_pattern1(self):
         c = self.c
         t = c.peek()
@@ -209,13 +316,219 @@ class CurveTranslator(tr_rect.Translator):
         self.rect_loopy = rect_loopy
         self.extern_used = set()
         self.fresh = 0
+        self.calls_loopy = set()
+        self.mono_used = set()
 
     def translate_fn(self, f):
         saved, self.fresh = self.fresh, 0       # fresh names are numbered per function
         try:
+            if getattr(f, "target_param", None):
+                return self.translate_calls_fn(f)
             return super().translate_fn(f)
         finally:
             self.fresh = saved
+
+    # ---- functions that draw on a generic target: translated to THE LIST OF TARGET CALLS THEY MAKE on a target that
+    #      never fails (the hand models' `List EG.Call`; error propagation is C04's topic). In such a body every
+    #      expression of type `Result<(), D::Error>` denotes a list of calls: `target.fill_solid(&r, c)` is the one call,
+    #      `x.m(target, ..)` the calls of the callee, `e?; rest` is `e ++ rest`, `Ok(())` is `[]`,
+    #      `for x in it { body }` is the concatenation of `body` over the items `it` yields (collected on explicit `fuel`).
+    def translate_calls_fn(self, f):
+        where = f"{f.rel} fn {(f.impl_type + '::') if f.impl_type else ''}{f.name}"
+        self.where = where
+        st = f.impl_type
+        env = {"%tail": True, "%frozen": frozenset()}
+        params = []
+        if f.self_kind is not None:
+            if f.self_kind == "refmut":
+                raise TrError(f"{where}: `&mut self` in a function that draws on a target: not supported")
+            env["self"] = st
+            params.append(("self", st))
+        for (n, t) in f.params:
+            if n == f.target_param:
+                continue
+            t = self.norm_type(t, st)
+            if not isinstance(t, str) and t[0] == "refmut":
+                raise TrError(f"{where}: a second `&mut` parameter ({n}) is not supported")
+            env[n] = t
+            params.append((n, t))
+        ret = self.norm_type(f.ret, st)
+        if ret != ("Result", ("unit", "Error")):
+            raise TrError(f"{where}: a function that draws on a target must return Result<(), _::Error>, not {type_str(ret)}")
+        toks, s, e = f.body
+        stmts, tail = tr_rect.BodyParser(toks, s, e, where).parse_block_body()
+        loopy = tr_rect.contains_kind((stmts, tail), "for")
+        ctx = {"ret": ret, "self_type": st, "mut_self": False, "kind": "calls", "loopy": loopy, "in_loop": False,
+               "target": f.target_param}
+        if loopy:
+            self.calls_loopy.add(f.key())
+        body = self.calls_block(stmts, 0, tail, env, ctx, None, 2)
+        name = self.lean_fn_name(f)
+        ps = " ".join(f"({self.lvar(n)} : {self.lean_type(t)})" for (n, t) in params)
+        if loopy:
+            ps = "(fuel : Nat)" + (" " if ps else "") + ps
+        head = (f"/-- `{f.rel}` line {f.line}: `{'impl ' + f.trait + ' for ' + st + ' :: ' if f.trait else (st + '::' if st else '')}{f.name}`"
+                f" (draws on `{f.target_param}`: the list of target calls it makes on a target that never fails"
+                + ("; `for` loops collect their iterator on `fuel`" if loopy else "") + ") -/\n")
+        return f"{head}def {name}{' ' if ps else ''}{ps} : List EG.Call :=\n  {body}\n"
+
+    def calls_block(self, stmts, i, tail, env, ctx, final, ind):
+        """Lean text (a `List EG.Call`) of the statements from `i` on; `final`: what follows the block (None: nothing)"""
+        pad = " " * ind
+        if i == len(stmts):
+            if tail is None or tail[0] == "unit":
+                return final(env, ind) if final is not None else "[]"
+            if final is not None or tail[0] in ("for", "match", "if"):
+                return self.calls_block([("expr", tail[1], tail)], 0, None, env, ctx, final, ind)
+            return self.calls_expr(tail, env, ctx, ind)
+        s = stmts[i]
+        line = s[1]
+        W = f"{self.where}: line {line}"
+        rest = lambda env2, ind2=ind: self.calls_block(stmts, i + 1, tail, env2, ctx, final, ind2)
+        has_rest = i + 1 < len(stmts) or tail is not None or final is not None
+        if s[0] == "let":
+            _, _, pat, ty, e, mut = s
+            if pat[0] != "pbind" or mut:
+                raise TrError(f"{W}: only `let name = ..` is supported in a function that draws")
+            want = self.norm_type(ty, ctx["self_type"]) if ty is not None else None
+            txt, t = self.tr_expr(e, self.nt(env), ctx, want, ind + 2)
+            if t == "int?":
+                raise TrError(f"{W}: cannot tell the type of the integer literal bound to `{pat[2]}`")
+            t = self.unify(t, want, W)
+            env2 = dict(env)
+            env2[pat[2]] = t
+            return f"let {self.lvar(pat[2])} := {txt};\n{pad}{rest(env2)}"
+        if s[0] != "expr":
+            raise TrError(f"{W}: statement kind `{s[0]}` is not supported in a function that draws")
+        e = s[2]
+        if e[0] == "return":
+            if has_rest and (i + 1 < len(stmts) or tail is not None):
+                raise TrError(f"{W}: code after `return`")
+            if e[2] is None:
+                raise TrError(f"{W}: bare `return` in a function returning a Result")
+            return self.calls_expr(e[2], env, ctx, ind)
+        if e[0] == "try":
+            a = self.calls_expr(e[2], env, ctx, ind + 2)
+            return f"({a}) ++\n{pad}({rest(env, ind + 2)})" if has_rest else a
+        if e[0] == "if":
+            _, _, cond, then, els = e
+            cnd, ctyp = self.tr_expr(cond, self.nt(env), ctx, "bool", ind + 2)
+            self.unify(ctyp, "bool", W)
+            a = self.calls_block(then[2], 0, then[3], env, ctx, rest, ind + 2)
+            b = rest(env, ind + 2) if els is None else self.calls_block(els[2], 0, els[3], env, ctx, rest, ind + 2)
+            return f"if {cnd} then\n{pad}  {a}\n{pad}else\n{pad}  {b}"
+        if e[0] == "match":
+            _, _, scrut, arms = e
+            stxt, stype = self.tr_expr(scrut, self.nt(env), ctx, None, ind + 2)
+            out = [f"(match {stxt} with"]
+            for (pat, body) in arms:
+                if pat[0] == "por":
+                    raise TrError(f"{W}: or-patterns are not supported in a function that draws")
+                binds = {}
+                ptxt = self.tr_pat(pat, stype, binds, line)
+                env2 = dict(env)
+                env2.update(binds)
+                if body[0] == "block":
+                    btxt = self.calls_block(body[2], 0, body[3], env2, ctx, rest, ind + 4)
+                elif body[0] == "unit":
+                    btxt = rest(env2, ind + 4)
+                else:
+                    btxt = self.calls_block([("expr", body[1], body)], 0, None, env2, ctx, rest, ind + 4)
+                out.append(f"{pad}  | {ptxt} =>\n{pad}    {btxt}")
+            return "\n".join(out) + ")"
+        if e[0] == "for":
+            _, _, pat, it, body = e
+            if pat[0] != "pbind":
+                raise TrError(f"{W}: `for` over a pattern is not supported")
+            if tr_rect.contains_kind(body, "return"):
+                raise TrError(f"{W}: `return` inside a `for` body is not supported")
+            itxt, itype = self.tr_expr(it, self.nt(env), ctx, None, ind + 2)
+            if not (isinstance(itype, str) and itype in self.prog.structs):
+                raise TrError(f"{W}: `for` over {type_str(itype)}: only iterators declared in the parsed files are known")
+            g = self.find_fn(itype, "Iterator", "next", W)
+            where = self.where
+            gname = self.need(g)
+            self.where = where
+            gret = self.norm_type(g.ret, g.impl_type)
+            if g.self_kind != "refmut" or g.params or isinstance(gret, str) or gret[0] != "Option" or g.key() in self.loopy_fns:
+                raise TrError(f"{W}: `Iterator::next` of {itype} has an unexpected signature")
+            env2 = dict(env)
+            env2[pat[2]] = gret[1][0]
+            btxt = self.calls_block(body[2], 0, body[3], env2, ctx, None, ind + 4)
+            loop = f"(for_calls CurveSrc.{gname} (fun {self.lvar(pat[2])} =>\n{pad}    {btxt}) fuel {self.atom(itxt)})"
+            return f"{loop} ++\n{pad}({rest(env, ind + 2)})" if has_rest else loop
+        raise TrError(f"{W}: expression statement of kind `{e[0]}` is not supported in a function that draws (a call on the "
+                      f"target must be followed by `?` or be the value of the block)")
+
+    def calls_expr(self, e, env, ctx, ind):
+        """an expression of type Result<(), _::Error> inside a function that draws: the calls it makes"""
+        line = e[1]
+        W = f"{self.where}: line {line}"
+        while e[0] == "paren":
+            e = e[2]
+        if e[0] == "callexpr" and e[2][0] == "path" and e[2][2] == ["Ok"] and len(e[3]) == 1 and e[3][0][0] == "unit":
+            return "[]"
+        if e[0] == "mcall":
+            _, _, recv, name, turbofish, args = e
+            if turbofish is not None:
+                raise TrError(f"{W}: turbofish on `{name}`")
+            tgt = ctx["target"]
+            is_tgt = lambda x: x[0] == "path" and x[2] == [tgt]
+            if is_tgt(recv):
+                if name != "fill_solid" or len(args) != 2:
+                    raise TrError(f"{W}: `{tgt}.{name}(..)`: only `fill_solid(&area, color)` is known")
+                a, at = self.tr_expr(args[0], self.nt(env), ctx, "Rectangle", ind)
+                self.unify(at, "Rectangle", W)
+                c, ct = self.tr_expr(args[1], self.nt(env), ctx, "Color", ind)
+                self.unify(ct, "Color", W)
+                return f"(Target_fill_solid {self.atom(a)} {self.atom(c)})"
+            rtxt, rt = self.tr_expr(recv, self.nt(env), ctx, None, ind)
+            if not (isinstance(rt, str) and rt in self.prog.structs):
+                raise TrError(f"{W}: `{name}` on {type_str(rt)} in a position that must draw")
+            g = self.find_method(rt, name, W)
+            tp = getattr(g, "target_param", None)
+            if tp is None:
+                raise TrError(f"{W}: `{name}` does not draw on a target")
+            where = self.where
+            gname = self.need(g)
+            self.where = where
+            gparams = [(n, t) for (n, t) in g.params]
+            if len(args) != len(gparams):
+                raise TrError(f"{W}: {name} takes {len(gparams)} argument(s)")
+            out = []
+            for a, (pn, pt) in zip(args, gparams):
+                if pn == tp:
+                    if not is_tgt(a):
+                        raise TrError(f"{W}: the target argument of `{name}` must be `{tgt}`")
+                    continue
+                pt = self.norm_type(pt, g.impl_type)
+                txt, t = self.tr_expr(a, self.nt(env), ctx, pt, ind + 2)
+                self.unify(t, pt, f"{W}: argument `{pn}` of {name}")
+                out.append(self.atom(txt))
+            fuel = " fuel" if g.key() in self.calls_loopy else ""
+            if fuel and not ctx["loopy"]:
+                raise TrError(f"{W}: call of `{name}`, which loops, from a function without a loop: not supported")
+            return f"(CurveSrc.{gname}{fuel} {self.atom(rtxt)}{''.join(' ' + x for x in out)})"
+        raise TrError(f"{W}: this expression must be a call that draws on the target (or `Ok(())`)")
+
+    def monomorphize(self, g, arg_type, W):
+        """`fn f<P: OffsetOutline>(&self, primitive: &P) -> P` instantiated at `P := arg_type`"""
+        import copy
+        if not (isinstance(arg_type, str) and arg_type in self.prog.structs):
+            raise TrError(f"{W}: `{g.name}` instantiated at {type_str(arg_type)}")
+        key = (g.impl_type, g.trait, f"{g.name}_{arg_type}")
+        if key in self.prog.fns:
+            return self.prog.fns[key]
+        g2 = copy.copy(g)
+        g2.name = f"{g.name}_{arg_type}"
+        sub = lambda t: arg_type if t == "P" else t
+        g2.params = [(n, sub(t)) for (n, t) in g.params]
+        g2.ret = sub(g.ret)
+        g2.unsupported = None
+        g2.shape_generic = False
+        self.prog.fns[key] = g2
+        self.mono_used.add(g.key())
+        return g2
 
     # ---- names
     def is_extern(self, f):
@@ -246,6 +559,8 @@ class CurveTranslator(tr_rect.Translator):
         if isinstance(t, str):
             if t in LEAN_INT_TYPES:
                 return LEAN_INT_TYPES[t]
+            if t == "Color":
+                return "EG.Color"
             if t in GENERATED_STRUCTS and t in self.prog.structs:
                 return t
             if t in self.prog.structs and t not in tr_rect.EXPECTED_STRUCTS:
@@ -490,6 +805,13 @@ class CurveTranslator(tr_rect.Translator):
     def tr_bin(self, e, env, ctx, expected, ind):
         _, line, op, l, r = e
         W = f"{self.where}: line {line}"
+        if op in ("==", "!="):
+            a0, at0 = self.tr_expr(l, env, ctx, None, ind)
+            if isinstance(at0, str) and at0 in self.prog.enums:
+                b0, bt0 = self.tr_expr(r, env, ctx, at0, ind)
+                self.unify(bt0, at0, W)
+                txt = f"(enum_eq {self.atom(a0)} {self.atom(b0)})"
+                return (txt if op == "==" else f"(bool_not {txt})"), "bool"
         if op in tr_rect.BIN_ARITH or op in tr_rect.BIN_CMP:
             a, at = self.tr_expr(l, env, ctx, "u64" if expected == "u64" else None, ind)
             if at == "u64":
@@ -504,7 +826,19 @@ class CurveTranslator(tr_rect.Translator):
     def tr_mcall(self, e, env, ctx, expected, ind):
         _, line, recv, name, turbofish, args = e
         W = f"{self.where}: line {line}"
-        if name in ("pow", "clone", "find", "map", "or_else", "unwrap_or_else") and turbofish is None:
+        if name == "saturating_as" and turbofish is None and expected is None:
+            # `let offset = w.saturating_as();`: the target type is inferred by rustc from the later use; only u32 -> i32
+            # is known, so that is assumed, and any use at another type fails the translator's own type check
+            return super().tr_mcall(e, env, ctx, "i32", ind)
+        if name not in ("pow", "clone", "find", "map", "or_else", "unwrap_or_else", "filter") and turbofish is None and len(args) == 1:
+            rtxt0, rt0 = self.tr_expr(recv, self.nt(env), ctx, None, ind)
+            if isinstance(rt0, str) and rt0 in self.prog.structs:
+                g = self.prog.fns.get((rt0, None, name))
+                if g is not None and getattr(g, "shape_generic", False):
+                    atxt, at = self.tr_expr(args[0], self.nt(env), ctx, None, ind)
+                    g2 = self.monomorphize(g, at, W)
+                    return self.call_user(g2, rtxt0, args, env, ctx, line, ind)
+        if name in ("pow", "clone", "find", "map", "or_else", "unwrap_or_else", "filter") and turbofish is None:
             rtxt, rt = self.tr_expr(recv, self.nt(env), ctx, None, ind)
             if name == "pow" and rt in ("i32", "u32"):
                 if len(args) != 1:
@@ -531,6 +865,12 @@ class CurveTranslator(tr_rect.Translator):
                 inner = expected[1][0] if (expected is not None and not isinstance(expected, str) and expected[0] == "Option") else None
                 ftxt, ft = self.closure_body(args[0], [rt[1][0]], env, ctx, inner, ind, W)
                 return f"(option_map {self.atom(rtxt)} {ftxt})", ("Option", (ft,))
+            if name == "filter" and not isinstance(rt, str) and rt[0] == "Option":
+                if len(args) != 1:
+                    raise TrError(f"{W}: filter takes one closure")
+                ftxt, ft = self.closure_body(args[0], [rt[1][0]], env, ctx, "bool", ind, W)
+                self.unify(ft, "bool", f"{W}: predicate of filter")
+                return f"(option_filter {self.atom(rtxt)} {ftxt})", rt
             if name == "unwrap_or_else" and not isinstance(rt, str) and rt[0] == "Option":
                 if len(args) != 1:
                     raise TrError(f"{W}: unwrap_or_else takes one closure")
@@ -566,12 +906,68 @@ open EG EG.RectSrcPrelude EG.CurveSrcPrelude
 """
 
 
+def degenericize(toks, rel):
+    """items generic over the colour type `C: PixelColor`: `C` becomes the concrete opaque type `Color` (the model's
+    `EG.Color`): the parameter list after `impl`, every `<C>` and every `where` clause are dropped, the identifier `C`
+    is replaced. Function-level parameters (`<D>`, `<T: DrawTarget>`, `<P: OffsetOutline>`) stay and are dealt with by
+    `classify_generic_fns`."""
+    out = []
+    i, n = 0, len(toks)
+    while i < n:
+        t = toks[i]
+        if t.kind == "id" and t.text == "impl" and i + 1 < n and toks[i + 1].text == "<":
+            depth, j = 0, i + 1
+            while True:
+                if toks[j].text == "<":
+                    depth += 1
+                elif toks[j].text == ">":
+                    depth -= 1
+                    if depth == 0:
+                        break
+                j += 1
+            names = [x.text for x in toks[i + 2:j] if x.kind == "id"]
+            if not names or names[0] != "C":
+                raise TrError(f"{rel}:{t.line}: generic impl over `{' '.join(x.text for x in toks[i + 1:j + 1])}`: only `C[: PixelColor]` is known")
+            out.append(t)
+            i = j + 1
+            continue
+        if t.text == "<" and i + 2 < n and toks[i + 1].text == "C" and toks[i + 2].text == ">" and i > 0 \
+                and toks[i - 1].text in COLOUR_GENERIC_TYPES:
+            i += 3
+            continue
+        if t.kind == "id" and t.text == "where":
+            while i < n and toks[i].text not in ("{", ";"):
+                i += 1
+            continue
+        if t.kind == "id" and t.text == "C":
+            t = tr_rect.Tok(t.kind, "Color", t.line, t.rel)
+        out.append(t)
+        i += 1
+    return out
+
+
+def classify_generic_fns(prog):
+    """functions generic over the target (`target: &mut D`) become CALL-LIST functions (see `translate_calls_fn`);
+    functions generic over a shape `P: OffsetOutline` are instantiated per call (`monomorphize`)."""
+    for f in prog.fns.values():
+        if f.rel in RECT_RELS or getattr(f, "unsupported", None) != "generic function":
+            continue
+        targets = [n for (n, t) in f.params if not isinstance(t, str) and t[0] == "refmut" and t[1] in ("D", "T")]
+        if len(targets) == 1:
+            f.target_param = targets[0]
+            f.unsupported = None
+        elif any(t == "P" for (_, t) in f.params):
+            f.shape_generic = True
+
+
 def load_file(prog, key, rel, repo):
     p = os.path.join(repo, rel)
     if not os.path.exists(p):
         raise TrError(f"{rel}: file not found")
     toks = tokenize(strip_comments(open(p).read(), rel), rel)
     ren = RENAMES.get(key, {})
+    if key in DEGENERIC:
+        toks = degenericize(toks, rel)
     out = []
     i = 0
     while i < len(toks):
@@ -593,6 +989,7 @@ def load_program(repo):
         load_file(prog, key + "%rect", rel, repo)
     for key, rel in FILES.items():
         load_file(prog, key, rel, repo)
+    classify_generic_fns(prog)
     for f in prog.fns.values():
         if getattr(f, "unsupported", None):
             continue
@@ -615,6 +1012,11 @@ def translate(repo, roots=None):
         tr = CurveTranslator(prog, rect_names, {"Iterator_next"})
         tr.where = "roots"
         text = [HEADER]
+        for en in GENERATED_ENUMS:
+            if en not in prog.enums:
+                raise TrError(f"enum {en} not found")
+            text.append(f"/-- `enum {en}` (declared from the Rust declaration) -/\ninductive {en} where\n"
+                        + "".join(f"  | {v}\n" for v in prog.enums[en]) + "  deriving DecidableEq, Repr\n\n")
         for sn in GENERATED_STRUCTS:
             if sn not in prog.structs:
                 raise TrError(f"struct {sn} not found")
@@ -624,7 +1026,7 @@ def translate(repo, roots=None):
     text.append("\n".join(tr.out))
     untranslated = {}
     for (it, trn, n), f in sorted(prog.fns.items(), key=lambda kv: (kv[0][0] or "", kv[0][1] or "", kv[0][2])):
-        if it in INVENTORY_TYPES and (it, trn, n) not in tr.done:
+        if it in INVENTORY_TYPES and (it, trn, n) not in tr.done and (it, trn, n) not in tr.mono_used:
             untranslated.setdefault(f"impl {trn + ' for ' if trn else ''}{it}", []).append(n)
     text.append("\n/-- functions of the impls of " + " / ".join(INVENTORY_TYPES) + " (in the parsed files) that are NOT translated -/\n"
                 "def untranslated : List (String × List String) := [\n"
